@@ -347,6 +347,26 @@ impl Property for C11 {
                         Err(e) => { o.v.push(("C11/segment-order/error".into(), e.to_string())); return o; }
                     }
                 }
+                // what a recovery that overlaps a compaction sees: the manifest it read first, and behind it a store in which
+                // the segments that manifest lists have been merged into a new one and deleted since. Everything is still
+                // persisted; a recovery that cannot find a listed segment must say so, not return what is left.
+                if manifest.segments.len() >= 2 && shuffle[1] % 2 == 0 {
+                    let st4 = SimStore::from_objects(&store.objects());
+                    let mkey = format!("{}/manifest.json", PREFIX);
+                    if let Ok(old_manifest) = st4.get(&mkey).await {
+                        let ccfg = redis_sim::streaming::CompactionConfig { target_segment_size: 1 << 20, max_segments: 1, min_segments_to_compact: 2, max_segments_per_compaction: 10, tombstone_ttl: Duration::from_secs(3600), compression_enabled: false };
+                        let mut compactor = redis_sim::streaming::Compactor::with_time_source(Arc::new(st4.clone()), PREFIX.to_string(), ManifestManager::new(st4.clone(), PREFIX), ccfg, clock.clone());
+                        if compactor.compact().await.is_ok() {
+                            let _ = st4.put(&mkey, &old_manifest).await;
+                            o.evals += 1;
+                            o.probes.push("recovery_with_the_manifest_from_before_a_compaction");
+                            if let Ok(r) = RecoveryManager::new(st4, PREFIX, 1).recover().await {
+                                let got = fold_impl(r.checkpoint_state.as_ref(), r.deltas.iter());
+                                if let Some((k, e, g)) = diff(&exp_store, &got) { o.v.push(("C11/recover/listed-segment-missing-skipped".into(), format!("recover() read the manifest from before a compaction ({} segments) and the store from after it (inputs merged and deleted): it reports success and returns for key {} {} instead of {}", manifest.segments.len(), k, g, e))); return o; }
+                            }
+                        }
+                    }
+                }
                 // one segment duplicated under a new id
                 if let Some(s0) = manifest.segments.first().cloned() {
                     let mut m3 = manifest.clone();
